@@ -613,6 +613,117 @@ def run_unary(R, chk, thorough):
                              {"part": "cat", "a": a.name, "b": b.name, "dim": dim, "batch": list(batch), "dtype": str(dtype)})
 
 
+
+# ----------------------------------------------------------------------------------------------- 3 batch dims
+class CustomInst:
+    """An instance built inside this check (same interface as catalogue.Inst)."""
+    def __init__(self, name, make, psd=False, exact=True):
+        self.name, self._make, self.psd, self.exact, self.tags = name, make, psd, exact, set()
+        _, self.dense = make()
+        self.shape = tuple(self.dense.shape)
+        self.square = self.shape[-1] == self.shape[-2]
+        self.cname = san(name) + f"@{self.shape[-2]}x{self.shape[-1]}"
+
+    def build(self):
+        return self._make()[0]
+
+
+def cat_batch_insts(rng, dtype, B, n):
+    """CatLinearOperator along EACH batch dim with pieces of unequal length (positive and negative `dim`)."""
+    from linear_operator.operators import CatLinearOperator, DenseLinearOperator, DiagLinearOperator
+    res = []
+    nb = len(B)
+    for d in range(nb):
+        k1 = 1
+        k2 = B[d] - 1
+        if k2 < 1:
+            continue
+        sa = list(B); sa[d] = k1
+        sb = list(B); sb[d] = k2
+        a, b = C.ri(rng, (*sa, n, n), dtype=dtype), C.ri(rng, (*sb, n, n), dtype=dtype)
+        dg = C.ri(rng, (*sa, n), 1, 3, dtype)
+        for dim, tag in ((d, f"d{d}"), (d - nb - 2, f"dneg{d}")):
+            res.append(CustomInst(f"Cat[batch{tag}]", lambda a=a, b=b, dim=dim, d=d: (
+                CatLinearOperator(DenseLinearOperator(a.clone()), DenseLinearOperator(b.clone()), dim=dim), torch.cat([a, b], d))))
+        res.append(CustomInst(f"Cat[batchd{d}](Diag,Dense)", lambda dg=dg, b=b, d=d: (
+            CatLinearOperator(DiagLinearOperator(dg.clone()), DenseLinearOperator(b.clone()), dim=d), torch.cat([torch.diag_embed(dg), b], d))))
+        # three pieces, the middle one longest
+        c3 = C.ri(rng, (*sa, n, n), dtype=dtype)
+        res.append(CustomInst(f"Cat3[batchd{d}]", lambda a=a, b=b, c3=c3, d=d: (
+            CatLinearOperator(DenseLinearOperator(a.clone()), DenseLinearOperator(b.clone()), DenseLinearOperator(c3.clone()), dim=d),
+            torch.cat([a, b, c3], d))))
+    return res
+
+
+def batch_perms(nb):
+    import itertools
+    if nb <= 3:
+        return [p for p in itertools.permutations(range(nb))]
+    cyc = [tuple((i + k) % nb for i in range(nb)) for k in range(nb)]
+    return cyc + [tuple(reversed(range(nb))), tuple([1, 2, 0] + list(range(3, nb))), tuple([nb - 1] + list(range(nb - 1)))]
+
+
+def batch3_cases(it):
+    nb = len(it.shape) - 2
+    nd = nb + 2
+    cases = []
+    for p in batch_perms(nb):
+        nm = "".join(map(str, p))
+        cases.append((f"permute{nm}", lambda o, p=p: o.permute(*p, nb, nb + 1), lambda d, p=p: d.permute(*p, nb, nb + 1)))
+        cases.append((f"permuteneg{nm}", lambda o, p=p: o.permute(*[q - nd for q in p], -2, -1), lambda d, p=p: d.permute(*p, nb, nb + 1)))
+        # a permutation followed by a second one (composition must be the composed permutation)
+        cases.append((f"permute2x{nm}", lambda o, p=p: o.permute(*p, nb, nb + 1).permute(*p, nb, nb + 1),
+                      lambda d, p=p: d.permute(*p, nb, nb + 1).permute(*p, nb, nb + 1)))
+    for i in range(nb):
+        for j in range(nb):
+            if i < j:
+                cases.append((f"transpose{i}{j}", lambda o, i=i, j=j: o.transpose(i, j), lambda d, i=i, j=j: d.transpose(i, j)))
+                cases.append((f"transposeneg{i}{j}", lambda o, i=i, j=j: o.transpose(j - nd, i - nd), lambda d, i=i, j=j: d.transpose(i, j)))
+    for pos in range(nb + 1):
+        cases.append((f"unsqueeze{pos}", lambda o, pos=pos: o.unsqueeze(pos), lambda d, pos=pos: d.unsqueeze(pos)))
+        cases.append((f"unsqueezeneg{pos}", lambda o, pos=pos: o.unsqueeze(pos - nd - 1), lambda d, pos=pos: d.unsqueeze(pos)))
+        cases.append((f"unsq-squeeze{pos}", lambda o, pos=pos: o.unsqueeze(pos).squeeze(pos), lambda d: d))
+        cases.append((f"unsq-expand{pos}", lambda o, pos=pos: o.unsqueeze(pos).expand(*it.shape[:pos], 2, *it.shape[pos:]),
+                      lambda d, pos=pos: d.unsqueeze(pos).expand(*it.shape[:pos], 2, *it.shape[pos:])))
+        cases.append((f"unsq-permute{pos}", lambda o, pos=pos: o.unsqueeze(pos).permute(*reversed(range(nb + 1)), nb + 1, nb + 2),
+                      lambda d, pos=pos: d.unsqueeze(pos).permute(*reversed(range(nb + 1)), nb + 1, nb + 2)))
+    for pos in range(nb):
+        rep = [1] * nd
+        rep[pos] = 2
+        cases.append((f"repeat{pos}", lambda o, rep=tuple(rep): o.repeat(*rep), lambda d, rep=tuple(rep): d.repeat(*rep)))
+        cases.append((f"sum{pos}", lambda o, pos=pos: o.sum(pos), lambda d, pos=pos: d.sum(pos)))
+        cases.append((f"sumneg{pos}", lambda o, pos=pos: o.sum(pos - nd), lambda d, pos=pos: d.sum(pos)))
+        cases.append((f"permute-sum{pos}", lambda o, pos=pos: o.permute(*batch_perms(nb)[-2 if nb <= 3 else 1], nb, nb + 1).sum(pos),
+                      lambda d, pos=pos: d.permute(*batch_perms(nb)[-2 if nb <= 3 else 1], nb, nb + 1).sum(pos)))
+        if it.psd:
+            cases.append((f"prod{pos}", lambda o, pos=pos: o.prod(pos), lambda d, pos=pos: d.prod(pos)))
+    cases.append(("repeat-all", lambda o: o.repeat(*([2] * nb), 1, 1), lambda d: d.repeat(*([2] * nb), 1, 1)))
+    cases.append(("repeat-new", lambda o: o.repeat(2, *([1] * nd)), lambda d: d.repeat(2, *([1] * nd))))
+    cases.append(("expand-new", lambda o: o.expand(2, *it.shape), lambda d: d.expand(2, *it.shape)))
+    return cases
+
+
+def run_batch3(R, chk, thorough):
+    """Operators with three batch dims of pairwise different sizes x every batch permutation / transpose / unsqueeze /
+    squeeze / expand / repeat / sum / prod position.  Own random stream (replayable on its own)."""
+    import random
+    rng = random.Random(f"{PID}:batch3:{chk.seed}")
+    B = (3, 4, 2) if not thorough else (3, 4, 5)
+    for dtype in ((torch.float64,) if not thorough else (torch.float64, torch.float32)):
+        its = build_insts(rng, dtype, B, 3, thorough)
+        its = [it for it in its if not (it.shape[-1] > 4 and it.name in SMALL6)]
+        its += cat_batch_insts(rng, dtype, B, 3)
+        for it in its:
+            for name, fi, fs in batch3_cases(it):
+                cell = f"C02/batch3/{name}/{it.cname}/{str(dtype)[6:]}"
+                desc = f"{name}({it.name}{list(it.shape[:-2])}) {dtype}"
+                chk.count("op:batch3-" + name.rstrip("0123456789"))
+                exact = it.exact and not name.startswith("prod")
+                R.record(cell, desc, lambda it=it, fi=fi: fi(it.build()), lambda it=it, fs=fs: fs(it.dense),
+                         {"part": "batch3", "inst": it.name, "case": name, "dtype": str(dtype)}, exact=exact, model=None,
+                         opkind=name.replace("unsq-", "unsqueeze-"))
+
+
 # ----------------------------------------------------------------------------------------------- programs
 PROG_LEAVES = ["Dense", "Dense[psd]", "Diag", "Diag[signed]", "ConstantDiag", "Identity", "Zero", "Toeplitz", "Triangular[lower]",
                "Triangular[upper]", "Root", "LowRankRoot", "Chol[lower]", "AddedDiag", "LowRankRootAddedDiag", "Sum", "PsdSum",
@@ -812,7 +923,7 @@ def run(chk):
                 "either side) x {+,-,elementwise *,@} x batch-shape pairs {same, none, left/right unbatched, 1 vs 3, (2,1) vs (3,)} "
                 "(quick: `same` for every pair plus one seed-rotated other kind); (2) every instance x scalar kind x {*, r*, /}; "
                 "(3) every instance x unary rewrite (transpose, repeat, expand, unsqueeze/squeeze, permute, sum/prod over batch and "
-                "matrix dims, add_diagonal x3 shapes, add_jitter, add_low_rank, cat_rows, cat); (4) seed-random expression programs "
+                "matrix dims, add_diagonal x3 shapes, add_jitter, add_low_rank, cat_rows, cat); (3b) every instance with THREE batch dims of different sizes (plus Cat along each batch dim with unequal pieces) x every batch permutation in S3 (positive / negative dims, applied twice), transpose of every batch pair, unsqueeze/squeeze/expand at every position, repeat/sum/prod over each batch dim; (4) seed-random expression programs "
                 "of depth <= 3 (quick) / 5 (thorough).  distinct = distinct (cell description); non-trivial = dense result has more "
                 "than one entry and is not all zero.  Each case: implementation vs dense torch expression (value, shape, dtype), and "
                 "for modelled classes implementation vs Lean model (class tree exact, values exact on the first batch element).")
@@ -823,8 +934,8 @@ def run(chk):
     chk.prove("LinOp.Properties.C02", ["LinOp/C02", "LinOp/Generated/C02Table.lean", "LinOp/Core/Parse.lean", "LinOp/Core/Basic.lean",
                                        "LinOp/Core/Bridge.lean"])
     R = Runner(chk)
-    parts = os.environ.get("C02_PARTS", "pairs,scalars,unary,programs").split(",")
-    for name, fn in (("pairs", run_pairs), ("scalars", run_scalars), ("unary", run_unary), ("programs", run_programs)):
+    parts = os.environ.get("C02_PARTS", "pairs,scalars,unary,batch3,programs").split(",")
+    for name, fn in (("pairs", run_pairs), ("scalars", run_scalars), ("unary", run_unary), ("batch3", run_batch3), ("programs", run_programs)):
         t = time.time()
         if name in parts:
             fn(R, chk, thorough)
@@ -849,7 +960,9 @@ def replay(chk, payload):
     R = Runner(chk)
     thorough = chk.tier == "thorough"
     part = pl["part"]
-    if part == "prog":
+    if part == "batch3":
+        run_batch3(R, chk, thorough)
+    elif part == "prog":
         run_programs(R, chk, thorough, progs=[(tuple(pl["batch"]), eval(pl["dtype"]), pl["pseed"], pl["depth"])])
     else:
         # consume the random stream exactly as `run` does up to the part
